@@ -7,12 +7,14 @@
         <op> ::= (rename "pkg" "from" "to") | (prefix "p") | (unspec)
                | (duplicate "pkg" "obj" "aspkg" "asobj" ("omitted field" …))
                | (replace "pkg" "obj" "topkg" "toobj")
+    namesok (<op> …) <schemas-vir>            -> closed=<b> side=<b> hyp=<b>   (hypotheses of C05_names)
     c05witness list | c05witness <name>       -> ok <names…> | <request line of the witness>
 -/
 import Cog.IR.Vir
 import Cog.Closed.FilterSchemas
 import Cog.Closed.NameOps
 import Cog.Closed.Witness
+import Cog.Closed.Seq
 namespace Cog.Drv
 open Cog Cog.IR Cog.Closed
 
@@ -101,6 +103,16 @@ def nameopsLine (rest : String) : String :=
   | some [.list ops, ss] =>
     match ops.mapM opIn, Vir.schemasIn ss with
     | some ts, some S => reply (applyAll ts S)
+    | _, _ => "bad-request"
+  | _ => "bad-request"
+
+open ClosedDrv in
+def namesokLine (rest : String) : String :=
+  match Sexp.parseMany rest with
+  | some [.list ops, ss] =>
+    match ops.mapM opIn, Vir.schemasIn ss with
+    | some ts, some S =>
+      "closed=" ++ toString (closed S) ++ " side=" ++ toString (seqOK side ts S) ++ " hyp=" ++ toString (seqOK opOK ts S)
     | _, _ => "bad-request"
   | _ => "bad-request"
 
